@@ -55,7 +55,9 @@ var sliceKinds = []string{"string", "int", "int64", "bool", "float32", "float64"
 func hostileLeaf(t *rapid.T, s *hx.Schema, base, label string, hint int) hx.Val {
 	if hint >= 0 {
 		// homogeneous list: one Go kind for all members, so that typed slices of the wrong member kind occur
-		kind := sliceKinds[hint%len(sliceKinds)]
+		// (the hint has four values; the name of the field's type, the same for all members, spreads
+		// them over all the kinds)
+		kind := sliceKinds[(hint+len(base))%len(sliceKinds)]
 		if rapid.IntRange(0, 2).Draw(t, label+"faith") == 0 {
 			return GenLeaf(t, s, base, label, hint)
 		}
